@@ -15,9 +15,9 @@ type (`Type::matches`, what `match` and `if x: T = e` test) and inhabits it BY C
 `program_sound`).  The invariant carried through the induction is `plain`: first-order values whose stored array tags
 are well-formed and lie above the tags of their elements - the invariant the implementation's `Array` keeps.
 The fragment: literals, variables, array and tuple literals, prefix `!` / `-`, `&&` / `||`, all scalar binary
-operators, indexing and tuple access on non-union operands, `if` / `else`, `if x: T = e` with its else branch,
+operators, indexing, slicing and tuple access on non-union operands, `[v; n]`, `if` / `else`, `if x: T = e` with its else branch,
 `match` with type, value and default arms, blocks, `:=` declarations with shadowing.  Outside it (functions, calls,
-cells, loops, structs, slices, iterators) the property is decided for the running code by the in-crate monitor.
+cells, loops, structs, iterators) the property is decided for the running code by the in-crate monitor.
 -/
 set_option linter.unusedSimpArgs false
 set_option linter.unusedVariables false
@@ -427,6 +427,29 @@ theorem tyOf_wf (g : TEnv) (e : Expr) (T : Ty) (h : tyOf g e = .ok T) : wf T = t
     split at h3
     · cases h3
     · exact okw h3
+  | arrayRepeat v n =>
+    simp only [tyOf] at h
+    obtain ⟨tv, _, h2⟩ := bind_ok h
+    obtain ⟨tn, _, h3⟩ := bind_ok h2
+    split at h3
+    · cases h3
+    · split at h3
+      · cases h3
+      · exact okw h3
+  | slice a st en sp =>
+    simp only [tyOf] at h
+    obtain ⟨ta, _, h2⟩ := bind_ok h
+    obtain ⟨ts, _, h3⟩ := bind_ok h2
+    obtain ⟨te, _, h4⟩ := bind_ok h3
+    obtain ⟨tp, _, h5⟩ := bind_ok h4
+    split at h5
+    · cases h5
+    · split at h5
+      · cases h5
+      · split at h5
+        · exact okw h5
+        · cases h5; rfl
+        · cases h5
   | _ => simp only [tyOf] at h; cases h
 
 
@@ -585,7 +608,53 @@ theorem tyOfArms_wf (g : TEnv) : ∀ (arms : List Arm) (tys : List Ty), tyOfArms
     simp only [wfL, Bool.and_eq_true]
     exact ⟨tyOf_wf _ body tb htb, tyOfArms_wf g rest ts hts⟩
 
+theorem concatL_least (ts : List Ty) (c : Ty) (hw : wfL ts = true) (h : ∀ t ∈ ts, sub t c = true) :
+    sub (concatL ts) c = true := by
+  cases ts with
+  | nil => simp [concatL, sub]
+  | cons t0 rest =>
+    simp only [wfL, Bool.and_eq_true] at hw
+    simp only [concatL]
+    exact foldConcat_least rest t0 c hw.1 hw.2 (h t0 (by simp)) (fun x hx => h x (by simp [hx]))
+
+theorem slice_mem {α} (xs : List α) (a b c : Option Int) : ∀ x ∈ Seq.slice xs a b c, x ∈ xs := by
+  intro x hx
+  simp only [Seq.slice, List.mem_filterMap] at hx
+  obtain ⟨i, _, hi⟩ := hx
+  exact List.mem_of_getElem? hi
+
+theorem plainL_of_mem (vs : List Val) (h : ∀ x ∈ vs, plain x = true) : plainL vs = true := by
+  induction vs with
+  | nil => simp [plainL]
+  | cons v vs ih => simp [plainL, h v (by simp), ih (fun x hx => h x (by simp [hx]))]
+
+theorem mem_asTypeL : ∀ (vs : List Val) (t : Ty), t ∈ asTypeL vs → ∃ v ∈ vs, v.asType = t
+  | [], t, h => by simp [asTypeL] at h
+  | w :: vs, t, h => by
+    simp only [asTypeL, List.mem_cons] at h
+    rcases h with rfl | h
+    · exact ⟨w, by simp, rfl⟩
+    · obtain ⟨v, hv, e⟩ := mem_asTypeL vs t h
+      exact ⟨v, by simp [hv], e⟩
+
+/-- a sub-selection of a plain array, re-tagged by `Array::from`, stays below the array's tag -/
+theorem sub_mkArray_sel (t1 : Ty) (xs sel : List Val) (w1 : wf t1 = true) (hall : allTagSub xs t1 = true)
+    (pxs : plainL xs = true) (hsel : ∀ x ∈ sel, x ∈ xs) :
+    plain (Val.mkArray sel) = true ∧ sub (concatL (asTypeL sel)) t1 = true := by
+  have psel : plainL sel = true := plainL_of_mem sel (fun x hx => plainL_mem pxs (hsel x hx))
+  refine ⟨plain_mkArray sel psel, concatL_least _ t1 (wfL_asTypeL sel psel) ?_⟩
+  intro t ht
+  obtain ⟨v, hv, rfl⟩ := mem_asTypeL sel t ht
+  exact (allTagSub_iff xs t1).mp hall v (hsel v hv)
+
 /-! ## soundness of the checker model for the evaluator (first-order fragment) -/
+
+theorem int_of_hasTy {r : Val} (h : hasTy r .int = true) : ∃ k, r = .int k := by
+  cases r <;> simp [hasTy] at h; exact ⟨_, rfl⟩
+theorem bool_of_hasTy {r : Val} (h : hasTy r .bool = true) : ∃ k, r = .bool k := by
+  cases r <;> simp [hasTy] at h; exact ⟨_, rfl⟩
+theorem float_of_hasTy {r : Val} (h : hasTy r .float = true) : ∃ k, r = .float k := by
+  cases r <;> simp [hasTy] at h; exact ⟨_, rfl⟩
 
 def SoundE (f : Nat) : Prop := ∀ (g : TEnv) (env : Env) (e : Expr) (T : Ty) (σ σ' : St) (v : Val),
   EnvOk env g → tyOf g e = .ok T → eval f env e σ = (.ok v, σ') → sub v.asType T = true ∧ plain v = true
@@ -598,6 +667,28 @@ def SoundSt (f : Nat) : Prop := ∀ (g g' : TEnv) (env env' : Env) (s : Expr) (T
   EnvOk env g → tyOfStmt g s = .ok (T, g') → evalStmt f env s σ = (.ok (v, env'), σ') →
   sub v.asType T = true ∧ plain v = true ∧ EnvOk env' g'
 
+/-- what `evalOpt` yields for an optional bound typed by `tyOfOpt` -/
+def OptRel : Option Val → Option Ty → Prop
+  | some v, some t => sub v.asType t = true ∧ plain v = true
+  | none, none => True
+  | _, _ => False
+
+theorem optIdx_ok (ov : Option Val) (ot : Option Ty) (hr : OptRel ov ot) (hb : boundOk ot = true) :
+    ∃ oi, optIdx ov = .ok oi := by
+  cases ov with
+  | none => exact ⟨none, rfl⟩
+  | some v =>
+    cases ot with
+    | none => cases hr
+    | some t =>
+      simp only [boundOk] at hb
+      have e := eq_of_eqv_int hb
+      subst e
+      obtain ⟨k, rfl⟩ := int_of_hasTy (hasTy_of_tag hr.2 hr.1)
+      exact ⟨some k.toInt, rfl⟩
+
+def SoundO (f : Nat) : Prop := ∀ (g : TEnv) (env : Env) (o : Option Expr) (ot : Option Ty) (σ σ' : St) (ov : Option Val),
+  EnvOk env g → tyOfOpt g o = .ok ot → evalOpt f env o σ = (.ok ov, σ') → OptRel ov ot
 def SoundA (f : Nat) : Prop := ∀ (g : TEnv) (env : Env) (v : Val) (arms : List Arm) (tys : List Ty) (σ σ' : St) (r : Val),
   EnvOk env g → plain v = true → tyOfArms g arms = .ok tys → evalArms f env v arms σ = (.ok r, σ') →
   ∃ t ∈ tys, sub r.asType t = true ∧ plain r = true
@@ -611,13 +702,6 @@ theorem bindM_ok {α β} {m : M α} {k : α → M β} {σ σ' : St} {b : β} (h 
     cases r with
     | ok a => exact ⟨a, σ1, rfl, h⟩
     | error e => simp at h
-
-theorem int_of_hasTy {r : Val} (h : hasTy r .int = true) : ∃ k, r = .int k := by
-  cases r <;> simp [hasTy] at h; exact ⟨_, rfl⟩
-theorem bool_of_hasTy {r : Val} (h : hasTy r .bool = true) : ∃ k, r = .bool k := by
-  cases r <;> simp [hasTy] at h; exact ⟨_, rfl⟩
-theorem float_of_hasTy {r : Val} (h : hasTy r .float = true) : ∃ k, r = .float k := by
-  cases r <;> simp [hasTy] at h; exact ⟨_, rfl⟩
 
 theorem interp_cmp_bool (op : IntOp) (h : isArith op.body = false) (a b : I64) (r : Val)
     (hr : ofScalar (op.interp a b) = .ok r) : ∃ k, r = .bool k := by
@@ -861,7 +945,7 @@ theorem sound_bin (op : BinOp) (l r T : Ty) (x y v : Val) (tx : sub x.asType l =
           exact ⟨same _ rfl, by simp [plain]⟩
       · split at ht <;> cases ht
 
-theorem soundE_step (f : Nat) (hE : SoundE f) (hL : SoundL f) (hS : SoundS f) (hA : SoundA f) : SoundE (f + 1) := by
+theorem soundE_step (f : Nat) (hE : SoundE f) (hL : SoundL f) (hS : SoundS f) (hA : SoundA f) (hO : SoundO f) : SoundE (f + 1) := by
   intro g env e T σ σ' v henv ht hev
   cases e with
   | litBool b => simp only [tyOf] at ht; cases ht; simp only [eval] at hev; cases hev; exact ⟨tag_bool _, by simp [plain]⟩
@@ -1216,7 +1300,106 @@ theorem soundE_step (f : Nat) (hE : SoundE f) (hL : SoundL f) (hS : SoundS f) (h
       obtain ⟨t, htmem, hsub, pr⟩ := hA g env v0 arms tys σ1 σ' v henv pv0 htys hk
       have wts := tyOfArms_wf g arms tys htys
       exact ⟨sub_trans _ t _ (plain_wf_tag pr) (wfL_mem wts htmem) wC hsub (members_sub_concatL tys wts t htmem), pr⟩
+  | arrayRepeat a n =>
+    simp only [tyOf] at ht
+    obtain ⟨tv, htv, h2⟩ := bind_ok ht
+    obtain ⟨tn, htn, h3⟩ := bind_ok h2
+    split at h3
+    · cases h3
+    · split at h3
+      · cases h3
+      · rename_i _ hint
+        have e1 := eq_of_eqv_int (by simpa using hint)
+        subst e1
+        rw [(okW_ok h3).1]
+        simp only [eval] at hev
+        obtain ⟨x, σ1, ha, hk⟩ := bindM_ok hev
+        obtain ⟨y, σ2, hn, hk2⟩ := bindM_ok hk
+        obtain ⟨tx, px⟩ := hE g env a tv σ σ1 x henv htv ha
+        obtain ⟨ty, py⟩ := hE g env n .int σ1 σ2 y henv htn hn
+        obtain ⟨k, rfl⟩ := int_of_hasTy (hasTy_of_tag py ty)
+        simp only [] at hk2
+        split at hk2
+        · simp [throwS] at hk2
+        · cases hk2
+          refine ⟨by simp only [asType, sub_arr]; exact tx, ?_⟩
+          have wx := plain_wf_tag px
+          simp only [plain, Bool.and_eq_true]
+          refine ⟨⟨wx, ?_⟩, plainL_of_mem _ (fun z hz => by rw [List.eq_of_mem_replicate hz]; exact px)⟩
+          rw [allTagSub_iff]
+          intro z hz
+          rw [List.eq_of_mem_replicate hz]
+          exact sub_refl _ wx
+  | slice a st en sp =>
+    simp only [tyOf] at ht
+    obtain ⟨ta, hta, h2⟩ := bind_ok ht
+    obtain ⟨ts, hts, h3⟩ := bind_ok h2
+    obtain ⟨te, hte, h4⟩ := bind_ok h3
+    obtain ⟨tp, htp, h5⟩ := bind_ok h4
+    simp only [eval] at hev
+    obtain ⟨x, σ1, ha, hk⟩ := bindM_ok hev
+    obtain ⟨vs, σ2, hs1, hk2⟩ := bindM_ok hk
+    obtain ⟨ve, σ3, hs2, hk3⟩ := bindM_ok hk2
+    obtain ⟨vp, σ4, hs3, hk4⟩ := bindM_ok hk3
+    obtain ⟨tx, px⟩ := hE g env a ta σ σ1 x henv hta ha
+    have r1 := hO g env st ts σ1 σ2 vs henv hts hs1
+    have r2 := hO g env en te σ2 σ3 ve henv hte hs2
+    have r3 := hO g env sp tp σ3 σ4 vp henv htp hs3
+    split at h5
+    · cases h5
+    · split at h5
+      · cases h5
+      · rename_i _ hb
+        simp only [Bool.not_eq_true', Bool.not_eq_false', Bool.and_eq_true] at hb
+        have hb' : boundOk ts = true ∧ boundOk te = true ∧ boundOk tp = true := by simpa using hb
+        obtain ⟨i1, e1⟩ := optIdx_ok vs ts r1 hb'.1
+        obtain ⟨i2, e2⟩ := optIdx_ok ve te r2 hb'.2.1
+        obtain ⟨i3, e3⟩ := optIdx_ok vp tp r3 hb'.2.2
+        simp only [liftE] at hk4
+        have hx := hasTy_of_tag px tx
+        cases ta with
+        | arr e =>
+          simp only [] at h5
+          rw [(okW_ok h5).1]
+          obtain ⟨t1, xs, rfl⟩ := arr_of_hasTy hx
+          have hsv : sliceVal (.arr t1 xs) vs ve vp = .ok (Val.mkArray (Seq.slice xs i1 i2 i3)) := by
+            simp [sliceVal, e1, e2, e3, bind, Except.bind]
+          rw [hsv] at hk4
+          cases hk4
+          simp only [asType, sub_arr] at tx
+          simp only [plain, Bool.and_eq_true] at px
+          obtain ⟨pm, hsub⟩ := sub_mkArray_sel t1 xs (Seq.slice xs i1 i2 i3) px.1.1 px.1.2 px.2 (slice_mem xs i1 i2 i3)
+          have we : wf e = true := by have := (okW_ok h5).2; simpa [wf] using this
+          exact ⟨by simp only [Val.mkArray, asType, sub_arr]
+                    exact sub_trans _ t1 e (wf_concatL _ (wfL_asTypeL _ (plainL_of_mem _ (fun z hz => plainL_mem px.2 (slice_mem xs i1 i2 i3 z hz))))) px.1.1 we hsub tx, pm⟩
+        | str =>
+          simp only [] at h5
+          cases h5
+          cases x <;> simp [hasTy] at hx
+          rename_i str
+          have hsv : sliceVal (.str str) vs ve vp = .ok (.str (String.ofList (Seq.slice str.toList i1 i2 i3))) := by
+            simp [sliceVal, e1, e2, e3, bind, Except.bind]
+          rw [hsv] at hk4
+          cases hk4
+          exact ⟨tag_str _, by simp [plain]⟩
+        | _ => simp only [] at h5; cases h5
   | _ => simp only [tyOf] at ht; cases ht
+
+theorem soundO_step (f : Nat) (hE : SoundE f) : SoundO (f + 1) := by
+  intro g env o ot σ σ' ov henv ht hev
+  cases o with
+  | none =>
+    simp only [tyOfOpt] at ht; cases ht
+    simp only [evalOpt] at hev; cases hev
+    trivial
+  | some e =>
+    simp only [tyOfOpt] at ht
+    obtain ⟨t, hte, h2⟩ := bind_ok ht
+    cases h2
+    simp only [evalOpt] at hev
+    obtain ⟨v, σ1, he, hk⟩ := bindM_ok hev
+    cases hk
+    exact hE g env e t σ σ' v henv hte he
 
 theorem soundA_step (f : Nat) (hE : SoundE f) (hA : SoundA f) : SoundA (f + 1) := by
   intro g env v arms tys σ σ' r henv pv ht hev
@@ -1339,21 +1522,22 @@ theorem soundS_step (f : Nat) (hSt : SoundSt f) (hS : SoundS f) : SoundS (f + 1)
     exact hS g1 g' env1 env' (s2 :: rest) T σ1 σ' v henv1 h2 hk
 
 /-- all five statements, for every amount of fuel -/
-theorem sound_all : ∀ f : Nat, SoundE f ∧ SoundL f ∧ SoundS f ∧ SoundSt f ∧ SoundV f ∧ SoundA f := by
+theorem sound_all : ∀ f : Nat, SoundE f ∧ SoundL f ∧ SoundS f ∧ SoundSt f ∧ SoundV f ∧ SoundA f ∧ SoundO f := by
   intro f
   induction f with
   | zero =>
-    refine ⟨?_, ?_, ?_, ?_, ?_, ?_⟩
+    refine ⟨?_, ?_, ?_, ?_, ?_, ?_, ?_⟩
     · intro g env e T σ σ' v _ _ hev; simp [eval, throwS] at hev
     · intro g env es Ts σ σ' vs _ _ hev; simp [evalList, throwS] at hev
     · intro g g' env env' body T σ σ' v _ _ hev; simp [evalSeq, throwS] at hev
     · intro g g' env env' s T σ σ' v _ _ hev; simp [evalStmt, throwS] at hev
     · intro g env e T σ σ' v _ _ hev; simp [evalStmtValue, throwS] at hev
     · intro g env v arms tys σ σ' r _ _ _ hev; simp [evalArms, throwS] at hev
+    · intro g env o ot σ σ' ov _ _ hev; simp [evalOpt, throwS] at hev
   | succ f ih =>
-    obtain ⟨hE, hL, hS, hSt, hV, hA⟩ := ih
-    exact ⟨soundE_step f hE hL hS hA, soundL_step f hE hL, soundS_step f hSt hS, soundSt_step f hE hV, soundV_step f hE,
-      soundA_step f hE hA⟩
+    obtain ⟨hE, hL, hS, hSt, hV, hA, hO⟩ := ih
+    exact ⟨soundE_step f hE hL hS hA hO, soundL_step f hE hL, soundS_step f hSt hS, soundSt_step f hE hV, soundV_step f hE,
+      soundA_step f hE hA, soundO_step f hE⟩
 
 /-- **type soundness, evaluator level, first-order fragment**: if the checker model assigns `T` to an expression in an
     environment whose variables hold first-order values of their static types, every value the reference evaluator
